@@ -51,6 +51,23 @@ def _literal(e: ast.expr) -> bool:
     return False
 
 
+def _chain(e: ast.expr) -> bool:
+    return isinstance(e, ast.Name) or (isinstance(e, ast.Attribute) and _chain(e.value))
+
+
+def _table_value(val: ast.expr, consts: dict[str, ast.expr]) -> ast.expr | None:
+    """A module-level table: a list / tuple of literals and dotted references, or the concatenation of such tables (earlier ones by name)."""
+    if isinstance(val, (ast.List, ast.Tuple)) and all(_literal(x) or (_chain(x) and not isinstance(x, ast.Name)) for x in val.elts):
+        return val
+    if isinstance(val, ast.Name) and val.id in consts and isinstance(consts[val.id], (ast.List, ast.Tuple)):
+        return consts[val.id]
+    if isinstance(val, ast.BinOp) and isinstance(val.op, ast.Add):
+        a, b = _table_value(val.left, consts), _table_value(val.right, consts)
+        if a is not None and b is not None and type(a) is type(b):
+            return ast.copy_location(type(a)(elts=list(a.elts) + list(b.elts), ctx=ast.Load()), val)
+    return None
+
+
 _CONST_NAME = re.compile(r"^_?[A-Z][A-Z0-9_]*$")
 
 
@@ -111,8 +128,13 @@ def _inline_constants(tree: ast.Module, known: set[str]) -> None:
             tgt, val = st.targets[0], st.value
         elif isinstance(st, ast.AnnAssign) and st.value is not None:
             tgt, val = st.target, st.value
-        if isinstance(tgt, ast.Name) and _CONST_NAME.match(tgt.id) and tgt.id not in known and stores.get(tgt.id) == 1 and _literal(val):
-            consts[tgt.id] = val
+        if isinstance(tgt, ast.Name) and _CONST_NAME.match(tgt.id) and tgt.id not in known and stores.get(tgt.id) == 1:
+            if _literal(val):
+                consts[tgt.id] = val
+            else:
+                tbl = _table_value(val, consts)
+                if tbl is not None:
+                    consts[tgt.id] = tbl
     cls_consts: dict[ast.ClassDef, dict[str, ast.expr]] = {}
     for c in [n for n in ast.walk(tree) if isinstance(n, ast.ClassDef)]:
         d: dict[str, ast.expr] = {}
